@@ -226,6 +226,24 @@ class CorruptRunner {
           if (is_table && mi != model.end()) { fail_msg = sfmt("get(%s) returns NOTFOUND for a live key (silently omitted)", lit_token(k).substr(0, 40).c_str()); break; }
         } else detected = true;
       }
+      // lookups through an iterator: seek to a live key and look at the status while the iterator is still positioned
+      // (an application that uses seek + compare as its lookup never runs the iterator to its end)
+      if (is_table && fail_msg.empty()) {
+        ldb_iter_t *it = ldb_iterator(db, &ro);
+        int cnt = 0;
+        for (auto mi = model.begin(); mi != model.end() && fail_msg.empty() && cnt < 48; ++mi, ++cnt) {
+          ldb_slice_t ks = slice_of(mi->first);
+          ldb_iter_seek(it, &ks);
+          int st = ldb_iter_status(it);
+          if (st != LDB_OK) { detected = true; continue; }
+          if (!ldb_iter_valid(it) || str_of(ldb_iter_key(it)) != mi->first)
+            fail_msg = sfmt("seek(%s) leaves the iterator %s with status OK: the live key is silently omitted", lit_token(mi->first).substr(0, 40).c_str(),
+                            ldb_iter_valid(it) ? "on a later key" : "exhausted");
+          else if (str_of(ldb_iter_value(it)) != *mi->second)
+            fail_msg = sfmt("seek(%s) yields a wrong value with status OK", lit_token(mi->first).substr(0, 40).c_str());
+        }
+        ldb_iter_destroy(it);
+      }
       // scans in both directions
       for (int dirn = 0; dirn < 2 && fail_msg.empty(); dirn++) {
         std::vector<std::pair<std::string, std::string>> got;
